@@ -248,8 +248,9 @@ def rule_increment(ctx):
     own length -- decided on the abstract paths of the chunk writer (wherever its pieces live: closures, helpers)"""
     R = "R03.4"
     prog = ctx.prog
-    wc = prog.find("write_chunk")
-    if not ctx.require(wc, R, "chunk-writer", "chunk writer (write_chunk)"):
+    from .tables import find_chunk_writer
+    wc = find_chunk_writer(prog)
+    if not ctx.require(wc, R, "chunk-writer", "chunk writer (the helper of BodyWriter::write that emits one chunk)"):
         return
     from .emit import emission_hook
     I = mk_interp(prog, event_hook=emission_hook())
